@@ -143,7 +143,46 @@ def par_deep(n: size, m: size, x: f32[n, m], y: f32[m]):
                 y[0] = x[i, j]
 
 
-PROCS = [par_ok, par_read_shared, par_nested_ok, par_in_seq_racy, par_in_seq_ok, par_under_if_racy,
+# ---- alias matrix: the same memory reached through the buffer, a window of it and a window of a window, bound before
+#      or inside the loop; every pairing of (read path, write path) with and without a cross-iteration conflict
+def _alias_src():
+    paths = {"direct": "x[{i}]", "w1": "a[{i}]", "w2": "b[{i}]"}
+    # a = x[1:n+2] (a[k] = x[k+1]), b = a[0:n+1] (b[k] = x[k+1])
+    L = ["from __future__ import annotations", "from exo import proc", ""]
+    names = []
+    for where in ("before", "inside"):
+        for rp in paths:
+            for wp in paths:
+                for conf in ("conf", "free"):
+                    nm = f"pa_{where}_{rp}_{wp}_{conf}"
+                    # write cell x[i+1] (through wp); read cell x[i+2] (conflict with the next iteration's write)
+                    # or z[i] (conflict-free)
+                    wi = "i + 1" if wp == "direct" else "i"
+                    ri = "i + 2" if rp == "direct" else "i + 1"
+                    wr = paths[wp].format(i=wi)
+                    rd = paths[rp].format(i=ri) if conf == "conf" else "z[i]"
+                    if conf == "free" and rp != "direct":
+                        continue
+                    names.append(nm)
+                    L += ["@proc", f"def {nm}(n: size, x: f32[n + 3], z: f32[n]):"]
+                    wins = ["a = x[1:n + 3]", "b = a[0:n + 2]"]
+                    if where == "before":
+                        L += ["    " + w for w in wins]
+                        L += ["    for i in seq(0, n):", f"        {wr} = {rd} + 1.0"]
+                    else:
+                        L += ["    for i in seq(0, n):"] + ["        " + w for w in wins] + [f"        {wr} = {rd} + 1.0"]
+                    L += [""]
+    return "\n".join(L), names
+
+
+def _load_alias():
+    from .genmod import load_generated
+    src, names = _alias_src()
+    mod = load_generated("exoverif_paralias", src)
+    return [getattr(mod, n) for n in names]
+
+
+PROCS = _load_alias() + [par_ok, par_read_shared, par_nested_ok, par_in_seq_racy, par_in_seq_ok, par_under_if_racy,
          par_write_same, par_reduce, par_neighbour, par_inplace_neighbour, par_tmp, par_shared_tmp,
          par_call_ok, par_call_racy, calls_par_callee, par_strided, par_overlap_mod, par_deep]
 CONFIGS = []
